@@ -433,6 +433,13 @@ impl HalfConnection {
                         continue;
                     }
 
+                    if entry.fragment_ref.fragment_id == 0 && packet_ref.expired(flush_id) {
+                        // None of this TimeSensitive packet could be sent during the flush it was
+                        // queued for (the pending queue only ever holds fragments of one packet)
+                        self.pending_queue.clear();
+                        continue;
+                    }
+
                     match dfe.push(&packet_rc, entry.fragment_ref.fragment_id, entry.resend) {
                         // Being window-limited does not preclude further sends
                         Err(emit::DataPushError::WindowLimited) => return Ok(()),
